@@ -40,8 +40,11 @@ static void hook(const char* tag, long, long) {
   else if (!strcmp(tag, "stats.dtor.begin")) evEmit(J().str("e", "DtorBegin"));
   else if (!strcmp(tag, "stats.dtor.end")) evEmit(J().str("e", "DtorEnd"));
 }
+// keys starting with 'p' are bulk filler that only makes the table large; they are never part of a reported result (the
+// projection of a linearisable history onto the other keys is linearisable: keys are independent, reset treats all alike)
 static std::string mapJson(const std::unordered_map<std::string, int>& m) {
-  std::map<std::string, int> s(m.begin(), m.end());
+  std::map<std::string, int> s;
+  for (auto& [k, v] : m) if (k.empty() || k[0] != 'p') s.emplace(k, v);
   std::vector<std::string> v;
   for (auto& [k, x] : s) v.push_back("[" + J::quote(k) + "," + std::to_string(x) + "]");
   return J::arr(v);
@@ -210,6 +213,26 @@ int main(int argc, char** argv) {
         evEmit(J().str("e", "Ret").num("id", 69999).raw("res", "[]"));
         phase.store(2);
         for (auto& th : rts) th.join();
+        // ... and, separately (no readers logging), against threads that CREATE keys meanwhile: a key whose first set()
+        // has returned exists for ever (reset zeroes it but keeps it).  A large table of filler keys (never reported)
+        // makes the reset take long enough for the race.
+        for (int k = 0; k < 20000; k++) stats->set("p" + std::to_string(k), 1);
+        std::atomic<int> wphase{0};
+        std::vector<std::thread> wts;
+        for (int t = 0; t < 2; t++) wts.emplace_back([&, t] {
+          for (int n = 0; wphase.load() < 2 && n < 60; n++) {
+            int id = 90000 + t * 1000 + n; std::string key = "n" + std::to_string(t) + "_" + std::to_string(n);
+            evEmit(J().str("e", "Call").num("id", id).str("op", "set").str("key", key).num("val", 3));
+            stats->set(key, 3);
+            evEmit(J().str("e", "Ret").num("id", id).raw("res", "[]"));
+          }
+        });
+        std::this_thread::sleep_for(std::chrono::microseconds(200));
+        evEmit(J().str("e", "Call").num("id", 69998).str("op", "reset").str("key", "").num("val", 0));
+        stats->reset();
+        evEmit(J().str("e", "Ret").num("id", 69998).raw("res", "[]"));
+        wphase.store(2);
+        for (auto& th : wts) th.join();
       }
       evEmit(J().str("e", "Call").num("id", 1).str("op", "getAll").str("key", "").num("val", 0));
       auto fin = stats->getAll();
